@@ -162,6 +162,22 @@ func c06Run(c *core.Ctx, s *rec.Script, verbose bool) {
 			}
 		}
 	}
+	if ok && strings.Contains(prog+strings.Join(s.Vars, " "), "OUTPUTMODE") && !strings.ContainsAny(out.Stdout, "\r\n") &&
+		!strings.Contains(prog, "\\n") && !strings.Contains(prog, "\\r") && !strings.Contains(prog, "\\01") && !strings.Contains(prog, "RS") {
+		// The newline output mode concerns line ends written to streams, not how $0 is rebuilt:
+		// with no CR or LF in any value, the same script must observe the same items under CRLF.
+		cfg2 := &interp.Config{Stdin: strings.NewReader(rec.InputText(s)), Vars: append([]string{}, cfg.Vars...), NewlineOutput: interp.CRLFNewlineMode}
+		out2 := run.Exec(parsed, cfg2, run.Opts{})
+		c.Count("crlf_output_reruns", 1)
+		if out2.Panic != "" {
+			c.Violation("panic", "", "interpreter panicked (CRLF newline output): "+run.PanicSite(out2.Panic), "", out2.Panic, cs)
+			return
+		}
+		if out2.Stdout != out.Stdout || out2.Err != out.Err {
+			c.Violation("record-model", "crlf-newline-output", "with CRLF newline output the rebuilt record differs: "+firstDiff(out.Stdout, out2.Stdout), out.Stdout+"\nerror: "+out.Err, out2.Stdout+"\nerror: "+out2.Err, cs)
+			return
+		}
+	}
 	if ok {
 		switch res.Stop {
 		case "error":
